@@ -14,6 +14,9 @@ From Pnc Require Import Proofs_Reach3.
 From Pnc Require Import Proofs_Reach2.
 From Pnc Require Import Proofs_Reach2.
 From Pnc Require Import Proofs_Reach4.
+From Pnc Require Import CSub.
+From Pnc Require Import Gen_begins.
+From Pnc Require Import Proofs_GenBegins.
 Set Printing Width 100.
 Set Printing Depth 100000.
 
@@ -612,3 +615,428 @@ Theorem REACH_cex_numrecs :
            Some 0%Z.
 Proof. exact @cex_numrecs. Qed.
 Print Assumptions REACH_cex_numrecs.
+
+(* the first loop of NC_begins (offsets of the fixed-size variables), as translated from ncmpio_enddef.c as built on this run (Gen_begins.v, tools/tr_cfun.py), against Header.begins_fixed: same verdict (NC_EVARSIZE for the CDF-1 offset limit), same end offset, same begins; no old layout (ncp->old == NULL) *)
+Theorem C03_gen_begins_fixed_eq :
+  forall (n0 : c_NC) (xsz : Z) (vars : list c_NC_var) (ev : Z) (lastv : c_ref),
+         NC__old n0 = None ->
+         NC_vararray__ndefined (NC__vars n0) = Base.Zlen vars ->
+         (Base.Zlen vars <= 2147483647)%Z ->
+         Forall cv_wf vars ->
+         Forall (fun v : c_NC_var => (0 <= NC_var__len v)%Z) vars ->
+         (0 <= ev)%Z ->
+         (ev + lens4 vars <= MAXOFF)%Z ->
+         let s0 := mkS (with_vals n0 vars) ev None 0 0 lastv in
+         exists s' : st_NC_begins,
+           c_loop (NC_begins_loop1_fuel n0 xsz s0) (NC_begins_loop1_cdef n0 xsz)
+             (NC_begins_loop1_cond n0 xsz) (NC_begins_loop1_body n0 xsz) 
+             (NC_begins_loop1_inc n0 xsz) s0 =
+           match Header.begins_fixed (NC__format n0) (map pair_of vars) nil ev nil with
+           | Some _ => CNorm s'
+           | None => CRetS Gen_consts.NC_EVARSIZE s'
+           end /\
+           (forall (ef : Z) (fb : list (option Z)),
+            Header.begins_fixed (NC__format n0) (map pair_of vars) nil ev nil = Some (ef, fb) ->
+            NC_begins__end_var s' = ef /\
+            map fixed_begin (arr_of s') = fb /\ NC_begins__i s' = Base.Zlen vars).
+Proof. exact @gen_begins_fixed_eq. Qed.
+Print Assumptions C03_gen_begins_fixed_eq.
+
+(* the second loop (record variables) against Header.begins_rec: verdict, end offset, record size, begins, length of the last record variable *)
+Theorem C03_gen_begins_rec_eq :
+  forall (n0 : c_NC) (xsz : Z) (vars : list c_NC_var) (ev : Z) (fv lastv : c_ref),
+         NC__old n0 = None ->
+         NC_vararray__ndefined (NC__vars n0) = Base.Zlen vars ->
+         (Base.Zlen vars <= 2147483647)%Z ->
+         Forall cv_wf vars ->
+         Forall (fun v : c_NC_var => (0 <= NC_var__len v)%Z) vars ->
+         (0 <= ev)%Z ->
+         (ev + lens4 vars <= MAXOFF)%Z ->
+         let s0 := mkS (with_vals_rs n0 vars 0) ev fv 0 0 lastv in
+         exists s' : st_NC_begins,
+           c_loop (NC_begins_loop3_fuel n0 xsz s0) (NC_begins_loop3_cdef n0 xsz)
+             (NC_begins_loop3_cond n0 xsz) (NC_begins_loop3_body n0 xsz) 
+             (NC_begins_loop3_inc n0 xsz) s0 =
+           match Header.begins_rec (NC__format n0) (map pair_of vars) nil ev 0 None nil with
+           | Some _ => CNorm s'
+           | None => CRetS Gen_consts.NC_EVARSIZE s'
+           end /\
+           (forall (er rs : Z) (ll : option Z) (rb : list (option Z)),
+            Header.begins_rec (NC__format n0) (map pair_of vars) nil ev 0 None nil =
+            Some (er, rs, ll, rb) ->
+            NC_begins__end_var s' = er /\
+            NC__recsize (NC_begins__P_ncp s') = rs /\
+            map rec_begin (arr_of s') = rb /\ last_rec_len None (arr_of s') = ll).
+Proof. exact @gen_begins_rec_eq. Qed.
+Print Assumptions C03_gen_begins_rec_eq.
+
+(* the WHOLE generated NC_begins (header extent, alignment round-ups, both loops, single-record-variable packing) computes the layout of Header.begins on concrete headers of every shape class (vm_compute) *)
+Theorem C03_gen_begins_runs :
+  begins_agree
+           {|
+             Header.h_format := 2;
+             Header.h_numrecs := 0;
+             Header.h_dims := exb_dims;
+             Header.h_gatts := nil;
+             Header.h_vars :=
+               exb_var 97 (1%Z :: 2%Z :: nil) 3
+               :: exb_var 98 (0%Z :: 1%Z :: nil) 5
+                  :: exb_var 99 (2%Z :: nil) 1 :: exb_var 100 (0%Z :: 2%Z :: nil) 6 :: nil
+           |} 0 0 512 4 0 = true /\
+         begins_agree
+           {|
+             Header.h_format := 1;
+             Header.h_numrecs := 0;
+             Header.h_dims := exb_dims;
+             Header.h_gatts := nil;
+             Header.h_vars :=
+               exb_var 97 (1%Z :: 2%Z :: nil) 3 :: exb_var 98 (0%Z :: 2%Z :: nil) 1 :: nil
+           |} 10 20 4 512 0 = true /\
+         begins_agree
+           {|
+             Header.h_format := 5;
+             Header.h_numrecs := 0;
+             Header.h_dims := exb_dims;
+             Header.h_gatts := nil;
+             Header.h_vars := nil
+           |} 0 0 512 4 0 = true /\
+         begins_agree
+           {|
+             Header.h_format := 5;
+             Header.h_numrecs := 0;
+             Header.h_dims := exb_dims;
+             Header.h_gatts := nil;
+             Header.h_vars := exb_var 97 nil 6 :: exb_var 98 (0%Z :: nil) 2 :: nil
+           |} 3 5 1024 8 4000 = true /\
+         begins_agree
+           {|
+             Header.h_format := 1;
+             Header.h_numrecs := 0;
+             Header.h_dims := exb_dims;
+             Header.h_gatts := nil;
+             Header.h_vars :=
+               exb_var 97 (3%Z :: nil) 5
+               :: exb_var 98 (3%Z :: nil) 5 :: exb_var 99 (1%Z :: nil) 4 :: nil
+           |} 0 0 4 4 0 = true /\
+         Header.begins
+           {|
+             Header.h_format := 1;
+             Header.h_numrecs := 0;
+             Header.h_dims := exb_dims;
+             Header.h_gatts := nil;
+             Header.h_vars :=
+               exb_var 97 (3%Z :: nil) 5
+               :: exb_var 98 (3%Z :: nil) 5 :: exb_var 99 (1%Z :: nil) 4 :: nil
+           |} 0 0 4 4 None 0 = None.
+Proof. exact @gen_begins_runs. Qed.
+Print Assumptions C03_gen_begins_runs.
+
+Theorem C03_gen_begins_subset_complete :
+  tr_cfun_unsupported = nil.
+Proof. exact @gen_begins_subset_complete. Qed.
+Print Assumptions C03_gen_begins_subset_complete.
+
+(* the one listed exclusion: the safe-mode cross-process consistency test (reaching it yields CUnsup) *)
+Theorem C03_gen_begins_excluded :
+  tr_cfun_excluded =
+         String.String (Ascii.Ascii false true true true false false true false)
+           (String.String (Ascii.Ascii true true false false false false true false)
+              (String.String (Ascii.Ascii true true true true true false true false)
+                 (String.String (Ascii.Ascii false true false false false true true false)
+                    (String.String (Ascii.Ascii true false true false false true true false)
+                       (String.String (Ascii.Ascii true true true false false true true false)
+                          (String.String (Ascii.Ascii true false false true false true true false)
+                             (String.String (Ascii.Ascii false true true true false true true false)
+                                (String.String
+                                   (Ascii.Ascii true true false false true true true false)
+                                   (String.String
+                                      (Ascii.Ascii false true false true true true false false)
+                                      (String.String
+                                         (Ascii.Ascii false false false false false true false false)
+                                         (String.String
+                                            (Ascii.Ascii true false true false false false true false)
+                                            (String.String
+                                               (Ascii.Ascii false false false true true false true
+                                                  false)
+                                               (String.String
+                                                  (Ascii.Ascii true true false false false false true
+                                                     false)
+                                                  (String.String
+                                                     (Ascii.Ascii false false true true false false
+                                                        true false)
+                                                     (String.String
+                                                        (Ascii.Ascii true false true false true false
+                                                           true false)
+                                                        (String.String
+                                                           (Ascii.Ascii false false true false false
+                                                              false true false)
+                                                           (String.String
+                                                              (Ascii.Ascii true false true false
+                                                                 false false true false)
+                                                              (String.String
+                                                                 (Ascii.Ascii false false true false
+                                                                    false false true false)
+                                                                 (String.String
+                                                                    (Ascii.Ascii false false false
+                                                                       false false true false false)
+                                                                    (String.String
+                                                                       (Ascii.Ascii false true false
+                                                                        false false true true false)
+                                                                       (String.String
+                                                                        (Ascii.Ascii true false false
+                                                                        true true true true false)
+                                                                        (String.String
+                                                                        (Ascii.Ascii false false
+                                                                        false false false true false
+                                                                        false)
+                                                                        (String.String
+                                                                        (Ascii.Ascii false false true
+                                                                        false true true true false)
+                                                                        (String.String
+                                                                        (Ascii.Ascii false false
+                                                                        false true false true true
+                                                                        false)
+                                                                        (String.String
+                                                                        (Ascii.Ascii true false true
+                                                                        false false true true false)
+                                                                        (String.String
+                                                                        (Ascii.Ascii false false
+                                                                        false false false true false
+                                                                        false)
+                                                                        (String.String
+                                                                        (Ascii.Ascii false false true
+                                                                        false true true true false)
+                                                                        (String.String
+                                                                        (Ascii.Ascii true false false
+                                                                        false false true true false)
+                                                                        (String.String
+                                                                        (Ascii.Ascii false true false
+                                                                        false true true true false)
+                                                                        (String.String
+                                                                        (Ascii.Ascii true true true
+                                                                        false false true true false)
+                                                                        (String.String
+                                                                        (Ascii.Ascii true false true
+                                                                        false false true true false)
+                                                                        (String.String
+                                                                        (Ascii.Ascii false false true
+                                                                        false true true true false)
+                                                                        (String.String
+                                                                        (Ascii.Ascii false false
+                                                                        false false false true false
+                                                                        false)
+                                                                        (String.String
+                                                                        (Ascii.Ascii false false true
+                                                                        false false true true false)
+                                                                        (String.String
+                                                                        (Ascii.Ascii true false true
+                                                                        false false true true false)
+                                                                        (String.String
+                                                                        (Ascii.Ascii true true false
+                                                                        false true true true false)
+                                                                        (String.String
+                                                                        (Ascii.Ascii true true false
+                                                                        false false true true false)
+                                                                        (String.String
+                                                                        (Ascii.Ascii false true false
+                                                                        false true true true false)
+                                                                        (String.String
+                                                                        (Ascii.Ascii true false false
+                                                                        true false true true false)
+                                                                        (String.String
+                                                                        (Ascii.Ascii false false
+                                                                        false false true true true
+                                                                        false)
+                                                                        (String.String
+                                                                        (Ascii.Ascii false false true
+                                                                        false true true true false)
+                                                                        (String.String
+                                                                        (Ascii.Ascii true false false
+                                                                        true false true true false)
+                                                                        (String.String
+                                                                        (Ascii.Ascii true true true
+                                                                        true false true true false)
+                                                                        (String.String
+                                                                        (Ascii.Ascii false true true
+                                                                        true false true true false)
+                                                                        (String.String
+                                                                        (Ascii.Ascii false true false
+                                                                        true true true false false)
+                                                                        (String.String
+                                                                        (Ascii.Ascii false false
+                                                                        false false false true false
+                                                                        false)
+                                                                        (String.String
+                                                                        (Ascii.Ascii false false true
+                                                                        false true true true false)
+                                                                        (String.String
+                                                                        (Ascii.Ascii false false
+                                                                        false true false true true
+                                                                        false)
+                                                                        (String.String
+                                                                        (Ascii.Ascii true false true
+                                                                        false false true true false)
+                                                                        (String.String
+                                                                        (Ascii.Ascii false false
+                                                                        false false false true false
+                                                                        false)
+                                                                        (String.String
+                                                                        (Ascii.Ascii false true false
+                                                                        false false true true false)
+                                                                        (String.String
+                                                                        (Ascii.Ascii false true false
+                                                                        false true true true false)
+                                                                        (String.String
+                                                                        (Ascii.Ascii true false false
+                                                                        false false true true false)
+                                                                        (String.String
+                                                                        (Ascii.Ascii false true true
+                                                                        true false true true false)
+                                                                        (String.String
+                                                                        (Ascii.Ascii true true false
+                                                                        false false true true false)
+                                                                        (String.String
+                                                                        (Ascii.Ascii false false
+                                                                        false true false true true
+                                                                        false)
+                                                                        (String.String
+                                                                        (Ascii.Ascii false false
+                                                                        false false false true false
+                                                                        false)
+                                                                        (String.String
+                                                                        (Ascii.Ascii true true true
+                                                                        true false true true false)
+                                                                        (String.String
+                                                                        (Ascii.Ascii false true true
+                                                                        false false true true false)
+                                                                        (String.String
+                                                                        (Ascii.Ascii false false
+                                                                        false false false true false
+                                                                        false)
+                                                                        (String.String
+                                                                        (Ascii.Ascii true false false
+                                                                        true false true true false)
+                                                                        (String.String
+                                                                        (Ascii.Ascii false true true
+                                                                        false false true true false)
+                                                                        (String.String
+                                                                        (Ascii.Ascii false false
+                                                                        false false false true false
+                                                                        false)
+                                                                        (String.String
+                                                                        (Ascii.Ascii false false
+                                                                        false true false true false
+                                                                        false)
+                                                                        (String.String
+                                                                        (Ascii.Ascii false true true
+                                                                        true false true true false)
+                                                                        (String.String
+                                                                        (Ascii.Ascii true true false
+                                                                        false false true true false)
+                                                                        (String.String
+                                                                        (Ascii.Ascii false false
+                                                                        false false true true true
+                                                                        false)
+                                                                        (String.String
+                                                                        (Ascii.Ascii true false true
+                                                                        true false true false false)
+                                                                        (String.String
+                                                                        (Ascii.Ascii false true true
+                                                                        true true true false false)
+                                                                        (String.String
+                                                                        (Ascii.Ascii true true false
+                                                                        false true true true false)
+                                                                        (String.String
+                                                                        (Ascii.Ascii true false false
+                                                                        false false true true false)
+                                                                        (String.String
+                                                                        (Ascii.Ascii false true true
+                                                                        false false true true false)
+                                                                        (String.String
+                                                                        (Ascii.Ascii true false true
+                                                                        false false true true false)
+                                                                        (String.String
+                                                                        (Ascii.Ascii true true true
+                                                                        true true false true false)
+                                                                        (String.String
+                                                                        (Ascii.Ascii true false true
+                                                                        true false true true false)
+                                                                        (String.String
+                                                                        (Ascii.Ascii true true true
+                                                                        true false true true false)
+                                                                        (String.String
+                                                                        (Ascii.Ascii false false true
+                                                                        false false true true false)
+                                                                        (String.String
+                                                                        (Ascii.Ascii true false true
+                                                                        false false true true false)
+                                                                        (String.String
+                                                                        (Ascii.Ascii false false
+                                                                        false false false true false
+                                                                        false)
+                                                                        (String.String
+                                                                        (Ascii.Ascii false true true
+                                                                        false false true false false)
+                                                                        (String.String
+                                                                        (Ascii.Ascii false true true
+                                                                        false false true false false)
+                                                                        (String.String
+                                                                        (Ascii.Ascii false false
+                                                                        false false false true false
+                                                                        false)
+                                                                        (String.String
+                                                                        (Ascii.Ascii false true true
+                                                                        true false true true false)
+                                                                        (String.String
+                                                                        (Ascii.Ascii true true false
+                                                                        false false true true false)
+                                                                        (String.String
+                                                                        (Ascii.Ascii false false
+                                                                        false false true true true
+                                                                        false)
+                                                                        (String.String
+                                                                        (Ascii.Ascii true false true
+                                                                        true false true false false)
+                                                                        (String.String
+                                                                        (Ascii.Ascii false true true
+                                                                        true true true false false)
+                                                                        (String.String
+                                                                        (Ascii.Ascii false true true
+                                                                        true false true true false)
+                                                                        (String.String
+                                                                        (Ascii.Ascii false false
+                                                                        false false true true true
+                                                                        false)
+                                                                        (String.String
+                                                                        (Ascii.Ascii false true false
+                                                                        false true true true false)
+                                                                        (String.String
+                                                                        (Ascii.Ascii true true true
+                                                                        true false true true false)
+                                                                        (String.String
+                                                                        (Ascii.Ascii true true false
+                                                                        false false true true false)
+                                                                        (String.String
+                                                                        (Ascii.Ascii true true false
+                                                                        false true true true false)
+                                                                        (String.String
+                                                                        (Ascii.Ascii false false
+                                                                        false false false true false
+                                                                        false)
+                                                                        (String.String
+                                                                        (Ascii.Ascii false true true
+                                                                        true true true false false)
+                                                                        (String.String
+                                                                        (Ascii.Ascii false false
+                                                                        false false false true false
+                                                                        false)
+                                                                        (String.String
+                                                                        (Ascii.Ascii true false false
+                                                                        false true true false false)
+                                                                        (String.String
+                                                                        (Ascii.Ascii true false false
+                                                                        true false true false false)
+                                                                        String.EmptyString))))))))))))))))))))))))))))))))))))))))))))))))))))))))))))))))))))))))))))))))))))))))))))))))))
+         :: nil.
+Proof. exact @gen_begins_excluded. Qed.
+Print Assumptions C03_gen_begins_excluded.
